@@ -58,6 +58,41 @@ pub fn run(ctx: &Ctx) -> Result<(), String> {
             }
         }
     }
+    // a second signal while the first is being acted upon (an operator's second Ctrl-C, a service
+    // manager's TERM after INT): the second delivery is an environment action like the first and is
+    // placed at every point of the shutdown that follows the first
+    {
+        let plans: Vec<(usize, bool, usize, usize, i32, i32)> = ctx.tier.pick(
+            vec![(1, false, 1, 64, libc::SIGINT, libc::SIGTERM), (1, true, 1, 2, libc::SIGTERM, libc::SIGINT)],
+            vec![(1, false, 1, 64, libc::SIGINT, libc::SIGTERM), (1, false, 2, 64, libc::SIGTERM, libc::SIGTERM), (1, true, 1, 64, libc::SIGTERM, libc::SIGINT), (2, false, 2, 2, libc::SIGINT, libc::SIGINT), (2, true, 2, 2, libc::SIGINT, libc::SIGTERM)],
+        );
+        for (n, stats, k, bound, s1, s2) in plans {
+            for pos in 0..=k {
+                if ctx.tier == Tier::Quick && pos != 0 {
+                    continue;
+                }
+                let name = |s: i32| if s == libc::SIGINT { "INT" } else { "TERM" };
+                let scn = Scenario {
+                    name: format!("shutdown-n{}-stats{}-k{}-{}-pos{}-then-{}", n, stats as u8, k, name(s1), pos, name(s2)),
+                    workers: n,
+                    health: false,
+                    stats,
+                    batch_size: 2,
+                    env: vec![],
+                    idle_iteration: false,
+                    horizon: 400,
+                    expect: Expect::CleanExit,
+                    probe_at_end: false,
+                };
+                let s = explore(ctx, if stats { "client_stats on/second-signal" } else { "client_stats off/second-signal" }, &scn, &move |slot: &Slot| {
+                    let mut e = env_with_signal(slot, n, k, s1, pos)?;
+                    e.push(EnvAct::Signal(s2));
+                    Some(e)
+                }, bound, ctx.tier.pick(1500, 30000), Duration::from_secs(ctx.tier.pick(25, 90)))?;
+                sched.merge(s);
+            }
+        }
+    }
     // part 2: flood lasso
     let lasso = crate::sched::flood_lasso(ctx)?;
     // part 4: TLA+ lifecycle model (TLC: invariants + termination under fairness) bound to the
@@ -214,6 +249,40 @@ pub fn run(ctx: &Ctx) -> Result<(), String> {
             let _ = std::fs::remove_dir_all(&dir);
         }
     }
+    // two signals a short while apart (sampled)
+    for (stats, gap_ms, s1, s2) in [(false, 15u64, libc::SIGINT, libc::SIGTERM), (true, 250, libc::SIGTERM, libc::SIGINT), (false, 40, libc::SIGTERM, libc::SIGTERM)] {
+        let dir = crate::proc::scratch_dir();
+        let dirs = dir.display().to_string();
+        let (mut sp, _port) = crate::proc::start_serving(
+            &|port| {
+                let mut w = Written::base(port);
+                w.set("num_workers", "2");
+                if stats {
+                    w.set("client_stats", "on");
+                    w.set("persistence_directory", &dirs);
+                }
+                w
+            },
+            Source::File,
+            2,
+            Duration::from_secs(20),
+        )?;
+        std::thread::sleep(Duration::from_millis(if stats { 120 } else { 30 }));
+        let t0 = Instant::now();
+        sp.signal(s1);
+        std::thread::sleep(Duration::from_millis(gap_ms));
+        sp.signal(s2);
+        let ex = sp.wait_exit(Duration::from_secs(10));
+        let secs = t0.elapsed().as_secs_f64();
+        let se = sp.stderr();
+        sampled.push(json!({"num_workers":2,"client_stats":stats,"signals":2,"gap_ms":gap_ms,"exit":format!("{:?}", ex.map(|e| (e.0, e.1))),"seconds":(secs * 1000.0).round() / 1000.0}));
+        if !(matches!(ex, Some((Some(0), _, _))) && secs <= 5.0 && !se.contains("panicked")) {
+            ctx.violation("wall-clock-shutdown", if ex.is_none() { "no-exit-10s" } else { "unclean" }, if stats { "client_stats on/second-signal" } else { "client_stats off/second-signal" },
+                json!({"kind":"wallclock-two-signals","client_stats":stats,"gap_ms":gap_ms,"exit":format!("{:?}", ex),"seconds":secs}));
+        }
+        sp.kill();
+        let _ = std::fs::remove_dir_all(&dir);
+    }
     // long idle before the signal (thorough; sampled)
     if ctx.tier == Tier::Thorough {
         for (nw, sig) in [(1usize, libc::SIGTERM), (4, libc::SIGINT)] {
@@ -293,7 +362,7 @@ pub fn run(ctx: &Ctx) -> Result<(), String> {
     ctx.cov("sampled_wall_clock", json!(sampled));
     ctx.cov("caps_hit", json!(sched.caps_hit));
     ctx.cov("exhaustive", json!(sched.caps_hit.is_empty()));
-    ctx.cov("rule", json!("(1) the real server process under the controlled scheduler: N workers, client_stats off/on, K requests; the environment action signal(INT|TERM) is placed at every position of the request program and, being an actor, is interleaved at every point of every explored schedule (iterative preemption bounding). Oracle: after the signal the process exits with status 0 under the fair default continuation within the horizon; no enabled actor while alive = deadlock; horizon exceeded = livelock; no panic text; every datagram a client received is an authentic reply. (2) flood lasso: after the flag is stored an adversarial environment refills the worker's socket with batch_size datagrams (valid / rejected / mixed) before every step of the worker inside process_events (per received datagram, per response, per batch); the worker must reach flag_check within the step bound of a bounded drain (a recurring abstract state without flag_check is a lasso). (4) a TLA+ model of the whole lifecycle (main, N workers, reporter, signal) checked by TLC for its invariants and for termination under weak fairness, bound to the implementation by replaying a transition cover of its state graph under the controller and comparing the enabled-actor sets at every step. (3) sampled wall-clock runs of the free-running binary (idle / after closed-loop load, swept delays, both signals, client_stats off/on): exit 0 within 5 s."));
+    ctx.cov("rule", json!("(1) the real server process under the controlled scheduler: N workers, client_stats off/on, K requests; the environment action signal(INT|TERM) is placed at every position of the request program and, being an actor, is interleaved at every point of every explored schedule (iterative preemption bounding). Oracle: after the signal the process exits with status 0 under the fair default continuation within the horizon; no enabled actor while alive = deadlock; horizon exceeded = livelock; no panic text; every datagram a client received is an authentic reply. (2) flood lasso: after the flag is stored an adversarial environment refills the worker's socket with batch_size datagrams (valid / rejected / mixed) before every step of the worker inside process_events (per received datagram, per response, per batch); the worker must reach flag_check within the step bound of a bounded drain (a recurring abstract state without flag_check is a lasso). (4) a TLA+ model of the whole lifecycle (main, N workers, reporter, signal) checked by TLC for its invariants and for termination under weak fairness, bound to the implementation by replaying a transition cover of its state graph under the controller and comparing the enabled-actor sets at every step. A second signal during the shutdown is an environment action too (scenarios named ..-then-INT/TERM): still exit 0. (3) sampled wall-clock runs of the free-running binary (idle / after closed-loop load, swept delays, both signals, client_stats off/on): exit 0 within 5 s."));
     ctx.sample(json!({"kind":"schedule","scenario":"shutdown-n2-stats0-k2-INT-pos1","schedule":["env:send(c1,C)","env:signal(INT)","worker-0@loop_top(0)","worker-0@polled(1)"]}));
     ctx.assume("signal delivery is one atomic environment action: kill(), then wait until the flag store is observed (the handler thread does nothing else)");
     ctx.assume("'a few seconds' is decided in steps (bounded liveness under the fair continuation); wall-clock runs are conformance evidence");
